@@ -150,4 +150,10 @@ theorem parallel_equals_serial (leaves : List Pos) (st : Store) (n cap : Nat) (h
     · intro i h1 h2; simp at h1; simp [h1]
   rw [this]
 
+/-! ### non-vacuity -/
+
+/-- a FITS override on a PNG pyramid reverses the rows; a PNG pyramid without override does not -/
+example : invert "png".toList (some "fits".toList) = true ∧ invert "png".toList none = false ∧
+    invert "fits".toList (some "npy".toList) = false := by decide
+
 end C06
